@@ -76,7 +76,7 @@ def rnd_patch(r):
             f = r.choice(FIELDS)
             d[f] = rnd_value(f, r)
         else:
-            d[r.choice(DYN[:4])] = r.choice([1, 2, "x", True, 0, False, 0.5, ""])
+            d[r.choice(DYN[:4])] = r.choice([1, 2, "x", True, 0, False, 0.5, "", None])
     return d
 
 
@@ -236,13 +236,17 @@ class C20(Check):
                     m["s"][k] = v
                 elif v is not None:
                     m["s"]["@" + k] = v
+                    m["any"].discard("@" + k)
+                else:
+                    m["any"].add("@" + k)  # a None value for a dynamic key: what happens to that key is not constrained by the property
+                    res.probe("patch_with_none_valued_dynamic_key")
 
         def new_model(rid, addr, obj):
             s = dict(DEFAULTS)
             s["address_in"] = addr
             for k in DYN:
                 s["@" + k] = None
-            m = {"id": rid, "s": s, "obj": obj}
+            m = {"id": rid, "s": s, "obj": obj, "any": set()}
             model.append(m)
             return m
 
@@ -355,6 +359,7 @@ class C20(Check):
                     elif o in ("attr_set", "held_attr"):
                         r.attr(op["key"], op["value"])
                         m["s"]["@" + op["key"]] = op["value"]
+                        m["any"].discard("@" + op["key"])
                     elif o == "attr_get":
                         got = r.attr(op["key"])
                         if tag(got) != tag(m["s"]["@" + op["key"]]):
@@ -400,6 +405,9 @@ class C20(Check):
                 if r is not m["obj"]:
                     V("C20.identity", f"storage now holds a different object for id {m['id']}")
                 sr, sm = snap_real(r), snap_model(m)
+                for k in m["any"]:
+                    sm[k] = sr[k]  # unconstrained keys follow the implementation
+                    m["s"][k] = r.attr(k[1:])
                 if sr != sm:
                     diff = {k: (sr[k], sm[k]) for k in sr if sr[k] != sm[k]}
                     V("C20.snapshot", f"record #{model.index(m)} differs from the model after {o}: {diff} (real, model)")
